@@ -63,13 +63,13 @@ inductive T.blackH : T → Nat → Prop
 def T.RB (t : T) : Prop := t.isRed = false ∧ t.noRedRed ∧ ∃ n, t.blackH n
 
 /-- heap node `n` of `h` is the root of (a heap image of) the inductive tree -/
-inductive Repr (h : Tree) : Nat → T → Prop
-  | nil : Repr h 0 .nil
+inductive Rep (h : Tree) : Nat → T → Prop
+  | nil : Rep h 0 .nil
   | node {n k c L R} : 2 ≤ n → n < h.nodes.size → (nd h n).key = k → (nd h n).red = c →
-      Repr h (nd h n).l L → Repr h (nd h n).r R → Repr h n (.node n k c L R)
+      Rep h (nd h n).l L → Rep h (nd h n).r R → Rep h n (.node n k c L R)
 
 /-- the whole `ArenaTree` object represents `t`: reachable from `_root`, no node shared (hence acyclic) -/
-def Represents (h : Tree) (t : T) : Prop := Repr h h.root t ∧ t.idxs.Nodup
+def Represents (h : Tree) (t : T) : Prop := Rep h h.root t ∧ t.idxs.Nodup
 
 /-- textbook ordered-set operations on a strictly ascending list -/
 def setInsert (k : Nat) : List Nat → List Nat
@@ -82,7 +82,7 @@ absent keys) -/
 inductive TOp where
   | insert (k : Nat)
   | remove (k : Nat)
-  deriving Repr, DecidableEq
+  deriving DecidableEq
 
 def specStep (s : List Nat) : TOp → List Nat
   | .insert k => setInsert k s
